@@ -451,3 +451,170 @@ Proof.
   unfold entries_named, entries_of, c_lookup. cbn [filter].
   destruct (str_eqb (ex_fname 97) name), (str_eqb (ex_fname 98) name); vm_compute; apply perm_nil.
 Qed.
+
+(* ---------- the directive cache ---------- *)
+Section DirCache.
+  Variable File : Type.
+  Variable fname : File -> str.
+  Variable fcomments : File -> list comment.
+
+  Notation results_of := (results_of File fname fcomments).
+  Notation replace_file := (replace_file File fname).
+  Notation remove_file := (remove_file File fname).
+
+  Notation dirs_represent := (dirs_represent File fname fcomments).
+  Notation file_dirs := (file_dirs File fcomments).
+
+  Lemma results_names fs : map fst (results_of fs) = map fname fs.
+  Proof. unfold AggPipeline.results_of. rewrite map_map. reflexivity. Qed.
+
+  Lemma carry_results_get fs name :
+    NoDup (map fname fs) ->
+    gm_get (carry (results_of fs)) name =
+    match find (fun f => str_eqb (fname f) name) fs with
+    | Some f => Some (file_dirs f)
+    | None => None
+    end.
+  Proof.
+    intros Hnd. destruct (find (fun f => str_eqb (fname f) name) fs) as [f|] eqn:E.
+    - apply find_some in E as [Hin Hn]. apply str_eqb_eq in Hn. subst name.
+      unfold carry. apply carry_from_get_in.
+      + rewrite results_names. exact Hnd.
+      + unfold AggPipeline.results_of. apply in_map_iff. exists f. auto.
+    - unfold carry. rewrite carry_from_get_notin; [reflexivity|].
+      rewrite results_names. intros Hin. apply in_map_iff in Hin as (f & Hf & Hin).
+      pose proof (find_none _ _ E f Hin) as Hn. cbn in Hn. rewrite Hf, str_eqb_refl in Hn. discriminate.
+  Qed.
+
+  Lemma find_filter_other name n fs :
+    name <> n ->
+    find (fun f => str_eqb (fname f) name) (filter (fun g => negb (str_eqb (fname g) n)) fs) =
+    find (fun f => str_eqb (fname f) name) fs.
+  Proof.
+    intros Hne. induction fs as [|f fs IH]; [reflexivity|]. cbn.
+    destruct (str_eqb_spec (fname f) n) as [E|E]; cbn.
+    - destruct (str_eqb_spec (fname f) name); [congruence | exact IH].
+    - destruct (str_eqb (fname f) name); [reflexivity | exact IH].
+  Qed.
+
+  Lemma find_filter_same n fs :
+    find (fun f => str_eqb (fname f) n) (filter (fun g => negb (str_eqb (fname g) n)) fs) = None.
+  Proof.
+    induction fs as [|f fs IH]; [reflexivity|]. cbn.
+    destruct (str_eqb (fname f) n) eqn:E; cbn; [exact IH|]. rewrite E. exact IH.
+  Qed.
+
+  Lemma nodup_remove n fs : NoDup (map fname fs) -> NoDup (map fname (remove_file n fs)).
+  Proof. intros H. unfold AggCache.remove_file. apply NoDup_map_filter. exact H. Qed.
+
+  Lemma nodup_replace f' fs : NoDup (map fname fs) -> NoDup (map fname (replace_file f' fs)).
+  Proof.
+    intros H. unfold AggCache.replace_file. cbn [map]. constructor; [|apply NoDup_map_filter; exact H].
+    intros Hin. apply in_map_iff in Hin as (g & Hg & Hin). apply filter_In in Hin as [_ Hneg].
+    rewrite Hg, str_eqb_refl in Hneg. discriminate.
+  Qed.
+
+  (* SetFileIgnoreDirectives(file, report.IgnoreDirectives) after re-linting f' *)
+  Lemma dir_cache_set g fs f' :
+    NoDup (map fname fs) -> dirs_represent g fs ->
+    dirs_represent (gm_set g (fname f') (file_dirs f')) (replace_file f' fs).
+  Proof.
+    intros Hnd Hrep name. rewrite (carry_results_get _ name (nodup_replace f' fs Hnd)).
+    unfold AggCache.replace_file. cbn [find].
+    destruct (str_eqb_spec (fname f') name) as [<-|Hne].
+    - apply gm_get_set_same.
+    - rewrite gm_get_set_other by exact Hne. rewrite find_filter_other by congruence.
+      rewrite Hrep. apply carry_results_get. exact Hnd.
+  Qed.
+
+  Lemma gm_get_delete_same g n : gm_get (gm_delete g n) n = None.
+  Proof.
+    induction g as [|[k o] g IH]; [reflexivity|]. cbn.
+    destruct (str_eqb_spec k n) as [->|Hne]; cbn; [exact IH|].
+    destruct (str_eqb_spec k n); [contradiction | exact IH].
+  Qed.
+
+  Lemma gm_get_delete_other g n m : n <> m -> gm_get (gm_delete g n) m = gm_get g m.
+  Proof.
+    intros Hne. induction g as [|[k o] g IH]; [reflexivity|]. cbn.
+    destruct (str_eqb_spec k n) as [->|Hk]; cbn.
+    - destruct (str_eqb_spec n m); [contradiction | exact IH].
+    - destruct (str_eqb_spec k m); [reflexivity | exact IH].
+  Qed.
+
+  (* Delete *)
+  Lemma dir_cache_delete g fs n :
+    NoDup (map fname fs) -> dirs_represent g fs -> dirs_represent (gm_delete g n) (remove_file n fs).
+  Proof.
+    intros Hnd Hrep name. rewrite (carry_results_get _ name (nodup_remove n fs Hnd)).
+    unfold AggCache.remove_file. destruct (str_eqb_spec n name) as [<-|Hne].
+    - rewrite gm_get_delete_same, find_filter_same. reflexivity.
+    - rewrite gm_get_delete_other by exact Hne. rewrite find_filter_other by congruence.
+      rewrite Hrep. apply carry_results_get. exact Hnd.
+  Qed.
+
+  (* handing the cached directives to the aggregate-only run = the directives of a run over the current files *)
+  Lemma dir_cache_used g fs v :
+    dirs_represent g fs -> agg_ignored (carry_overridden [] g) v = agg_ignored (carry (results_of fs)) v.
+  Proof.
+    intros Hrep. unfold agg_ignored, agg_directives. rewrite carry_overridden_get. cbn [gm_get].
+    rewrite (Hrep (v_file v)). reflexivity.
+  Qed.
+
+  (* SetIgnoreDirectives(report.IgnoreDirectives) of a run over all files *)
+  Lemma dir_cache_init fs : dirs_represent (carry (results_of fs)) fs.
+  Proof. intros name. reflexivity. Qed.
+End DirCache.
+
+(* ---------- one edit in the language server = a fresh one-shot run ---------- *)
+Section LspStep.
+  Variable File : Type.
+  Variable Agg : Type.
+  Variable fname : File -> str.
+  Variable fcomments : File -> list comment.
+  Variable brules : list str.
+  Variable ckeys : list str.
+  Variable B_aggregate : str -> File -> list Agg.
+  Variable C_aggregate : str -> File -> option (list Agg).
+  Variable B_report : str -> list Agg -> list violation.
+  Variable C_report : str -> list Agg -> list violation.
+  Variable src : Agg -> str.
+  Variable ikey : Agg -> str.
+
+  Hypothesis H_bperm : forall r a b, Permutation a b -> Permutation (B_report r a) (B_report r b).
+  Hypothesis H_cperm : forall k a b, Permutation a b -> Permutation (C_report k a) (C_report k b).
+
+  Notation collect := (collect File Agg brules ckeys B_aggregate C_aggregate).
+  Notation file_aggs := (file_aggs File Agg brules ckeys B_aggregate C_aggregate).
+
+  Theorem lsp_step_eq_one_shot (c : cache Agg) (g : gomap) (fs : list File) (f' : File) :
+    let fs' := replace_file File fname f' fs in
+    NoDup (map fname fs) ->
+    represents File Agg fname brules ckeys B_aggregate C_aggregate c fs ->
+    dirs_represent File fname fcomments g fs ->
+    well_sourced File Agg fname brules ckeys B_aggregate C_aggregate src [f'] ->
+    well_keyed File Agg brules ckeys B_aggregate C_aggregate ikey fs' ->
+    no_bare_marker File Agg brules ckeys B_aggregate C_aggregate fs' ->
+    (2 <= length fs')%nat ->
+    Permutation
+      (lint_aggregate_violations Agg brules ckeys B_report C_report [] 0
+         (Some (get_file_aggregates Agg ikey (set_file_aggregates Agg src (fname f') (collect true [f']) c)))
+         (carry_overridden [] (gm_set g (fname f') (file_dirs File fcomments f'))))
+      (one_shot File Agg fname fcomments brules ckeys B_aggregate C_aggregate B_report C_report fs').
+  Proof.
+    intros fs' Hnd Hrep Hdirs Hs Hk Hnm Hlen.
+    eapply Permutation_trans.
+    - apply (incremental_eq_fresh_thm File Agg fname brules ckeys B_aggregate C_aggregate B_report C_report src ikey
+               H_bperm H_cperm c fs f'); assumption.
+    - unfold AggPipeline.one_shot.
+      rewrite (lint_agg_provided Agg brules ckeys B_report C_report).
+      rewrite (lint_agg_multi Agg brules ckeys B_report C_report _ _ _ Hlen).
+      rewrite (collect_true File Agg brules ckeys B_aggregate C_aggregate).
+      rewrite (collect_multi File Agg brules ckeys B_aggregate C_aggregate fs' Hlen).
+      apply (agg_report_equiv Agg brules ckeys B_report C_report H_bperm H_cperm).
+      + intros k. apply Permutation_refl.
+      + intros k. reflexivity.
+      + intros v. apply (dir_cache_used File fname fcomments).
+        apply (dir_cache_set File fname fcomments); assumption.
+  Qed.
+End LspStep.
